@@ -28,26 +28,34 @@ func runC06(p *core.Prog, r *core.Report) {
 	}
 
 	// ---- R1 (on the package's inlined views: an operation in a helper is judged as part of each function that calls the helper)
-	allowed := func(role, dir string, root *ssa.Function) (bool, string) {
+	allowed := func(role, dir string, actor string) (bool, string) {
 		switch role + "/" + dir {
 		case "buffered/send":
-			return sameFn(root, t.Push), "PushTask"
+			return actor == "push", "PushTask"
 		case "buffered/recv":
-			return sameFn(root, t.Queue), "the queue goroutine"
+			return actor == "queue", "the queue goroutine"
 		case "blocking/send", "shared/send":
-			return sameFn(root, t.Queue), "the queue goroutine"
+			return actor == "queue", "the queue goroutine"
 		case "blocking/recv", "shared/recv":
-			return sameFn(root, t.Worker), "the worker goroutine"
+			return actor == "worker", "the worker goroutine"
 		}
 		return false, "nobody"
 	}
 	n := map[string]int{}
+	seenUse := map[string]bool{}
 	use := func(root *ssa.Function, in ssa.Instruction, ch ssa.Value, dir string) {
 		role := t.chanRole(ch)
 		if role != "buffered" && role != "blocking" && role != "shared" {
 			return
 		}
-		ok, who := allowed(role, dir, root)
+		actor := t.actor(in.Parent(), root)
+		// the same source operation seen for the same actor in several views (a closure of the constructor and the body's own view) is one obligation
+		dk := fmt.Sprintf("%p/%s/%s/%s", sx.OrigInstr(in), actor, dir, sx.ValPath(ch))
+		if seenUse[dk] {
+			return
+		}
+		seenUse[dk] = true
+		ok, who := allowed(role, dir, actor)
 		key := fmt.Sprintf("%s %s in %s", dir, role, fnName(root))
 		n[key]++
 		r.Check(ok, "C06-R1", fmt.Sprintf("%s #%d", key, n[key]), p.Pos(in.Pos()), "role respected", fmt.Sprintf("%s on a %s channel in %s (code of %s): only %s may do that — a second %s breaks exactly-once hand-over", dir, role, fnName(root), fnName(sx.SourceFunc(in)), who, map[string]string{"send": "producer", "recv": "consumer"}[dir]))
@@ -93,13 +101,33 @@ func runC06(p *core.Prog, r *core.Report) {
 						if isBuiltin && (b.Name() == "len" || b.Name() == "cap") {
 							continue
 						}
+						// the go statement (or wrapper call) that starts a lane goroutine hands it its channels: the body is
+						// analysed with its parameters bound to exactly these arguments
+						if g, isGo := in.(*ssa.Go); isGo && t.GoRole[g] != "" {
+							continue
+						}
 						what := sx.CalleeName(c)
 						r.Fail("C06-R1", "lane channel passed to "+short(what)+" in "+fnName(v.Root), p.Pos(in.Pos()), "a "+role+" channel is passed to "+short(what)+" (close, or a function this analysis does not expand): its use there is not covered by the role rule")
 					}
 				}
 				if st, ok := in.(*ssa.Store); ok {
 					if role, lane := isLane(st.Val); lane {
-						if _, isLocal := st.Addr.(*ssa.Alloc); !isLocal {
+						// installing the channel object in its own lane field while the lane is built is not a copy
+						installs := false
+						if _, isMade := t.resolveChan(st.Val).(*ssa.MakeChan); isMade && sameFn(v.Root, t.Ctor) {
+							isLaneField := func(f *types.Var) bool { return f != nil && (f == t.Buffered || f == t.Blocking || f == t.Shared) }
+							switch a := st.Addr.(type) {
+							case *ssa.FieldAddr:
+								installs = isLaneField(sx.FieldOf(a))
+							case *ssa.IndexAddr:
+								for _, f := range []*types.Var{t.Buffered, t.Blocking} {
+									if f != nil && sx.Origins(a.X)[t.fieldKey(f)] {
+										installs = true
+									}
+								}
+							}
+						}
+						if _, isLocal := st.Addr.(*ssa.Alloc); !isLocal && !installs {
 							r.Fail("C06-R1", "lane channel stored in "+fnName(v.Root), p.Pos(in.Pos()), "a "+role+" channel is copied into "+sx.AddrPath(st.Addr)+": uses through the copy are not covered by the role rule")
 						}
 					}
@@ -176,105 +204,80 @@ func runC06(p *core.Prog, r *core.Report) {
 		}}
 		res := sx.Count(t.Push, t.Push.Blocks[0], w, nil)
 		nCase := 0
-		judge := func(rv ssa.Value, rg sx.Range, pos string) {
+		judge := func(rv ssa.Value, rg sx.Range, pos string, at ssa.Instruction) {
 			nCase++
 			c := fmt.Sprintf("PushTask result #%d (%s)", nCase, short(sx.ValPath(rv)))
-			if sx.IsNilConst(rv) {
+			// nil as a constant, or a value that every path to here has tested to be nil (`err := ctx.Err(); if err == nil { … }`)
+			knownNil := sx.IsNilConst(rv)
+			if !knownNil && at != nil {
+				if isNil, _ := sx.NilEdges(rv); len(isNil) > 0 && sx.MustPass(t.Push, nil, at, sx.Cut{Edges: isNil}) {
+					knownNil = true
+				}
+			}
+			if knownNil {
 				r.Check(rg.Is(1), "C06-R2", c, pos, "nil only after exactly one enqueue", "nil is returned on a path that enqueued "+rangeStr(rg)+" times: the caller is told the task was accepted although it was not (or was enqueued twice)")
 			} else {
 				r.Check(rg.Is(0), "C06-R2", c, pos, "error result without enqueue", "a possibly non-nil error is returned on a path that enqueued the task "+rangeStr(rg)+" times: a rejected task would still be started")
 			}
 		}
 		for _, ret := range sx.Returns(t.Push) {
-			rv := returnValue(ret, 0)
-			// a result merged from several paths is judged per incoming path
-			if ph, ok := rv.(*ssa.Phi); ok {
-				for k, e := range ph.Edges {
-					pred := ph.Block().Preds[k]
-					term := pred.Instrs[len(pred.Instrs)-1]
-					rg, _ := res.Before(term)
+			// a result merged from several paths (single-return style, nested merges) is judged per incoming path
+			for _, rc := range retCases(ret, 0) {
+				rg, _ := res.Before(rc.At)
+				if rc.To != nil {
+					pred := rc.At.Block()
 					for si, sb := range pred.Succs {
-						if sb == ph.Block() && sendArms[sx.Edge{From: pred, Idx: si}] {
+						if sb == rc.To && sendArms[sx.Edge{From: pred, Idx: si}] {
 							rg = rg.Add(sx.Range{Min: 1, Max: 1})
 						}
 					}
-					judge(e, rg, p.Pos(ret.Pos()))
 				}
-				continue
+				judge(rc.Val, rg, p.Pos(ret.Pos()), rc.At)
 			}
-			rg, _ := res.Before(ret)
-			judge(rv, rg, p.Pos(ret.Pos()))
 		}
 	}
 
-	// ---- R3
+	// ---- R3 (stated about rounds: from one receive arm to the next, however the loop is written)
 	{
-		hdr := outerLoop(t.Queue)
-		if hdr == nil {
-			r.Fail("C06-R3", "queue goroutine loop", p.FuncPos(t.Queue), "no loop found")
-		} else {
-			back := sx.BackEdgesTo(hdr)
-			recvArms, _ := t.armEdges(t.Queue, func(sel *ssa.Select, a sx.Arm) bool {
-				return a.State != nil && a.State.Dir == types.RecvOnly && t.chanRole(a.State.Chan) == "buffered"
-			})
-			sendArms, _ := t.armEdges(t.Queue, func(sel *ssa.Select, a sx.Arm) bool {
-				if a.State == nil || a.State.Dir != types.SendOnly {
-					return false
-				}
-				role := t.chanRole(a.State.Chan)
-				return role == "blocking" || role == "shared"
-			})
-			if len(recvArms) == 0 || len(sendArms) == 0 {
-				r.Unknown("C06-R3", "queue goroutine: hand-over selects", p.FuncPos(t.Queue), "the receive from the buffered queue or the hand-over sends are not select arms of the goroutine body itself (moved into helpers?): the per-iteration rule cannot follow them")
+		R := t.recvArms(t.Queue, "buffered")
+		sendArms, _ := t.armEdges(t.Queue, func(sel *ssa.Select, a sx.Arm) bool {
+			if a.State == nil || a.State.Dir != types.SendOnly {
+				return false
 			}
-			rc := sx.Count(t.Queue, hdr, sx.Weights{Edge: edgeWeight(recvArms)}, back)
-			sc := sx.Count(t.Queue, hdr, sx.Weights{Edge: edgeWeight(sendArms)}, back)
-			okIter := len(rc.BackEdges) > 0
-			detail := ""
-			for e, rg := range rc.BackEdges {
-				if !rg.Is(1) {
-					okIter = false
-					detail += fmt.Sprintf("an iteration ending at block %d received %s tasks; ", e.From.Index, rangeStr(rg))
-				}
-			}
-			for e, rg := range sc.BackEdges {
-				if !rg.Is(1) {
-					okIter = false
-					detail += fmt.Sprintf("an iteration ending at block %d handed over %s times (a task is dropped or duplicated); ", e.From.Index, rangeStr(rg))
-				}
-			}
-			r.Check(okIter, "C06-R3", "queue goroutine: one receive and one hand-over per iteration", p.Pos(hdr.Instrs[0].Pos()), "every path around the loop takes exactly one receive arm and exactly one send arm", detail)
-			okExit := true
-			for _, ret := range sx.Returns(t.Queue) {
-				if rg, ok := sc.Before(ret); ok && rg.Max > 1 {
-					okExit = false
-				}
-				if rg, ok := rc.Before(ret); ok && rg.Max > 1 {
-					okExit = false
-				}
-			}
-			r.Check(okExit, "C06-R3", "queue goroutine: at most one hand-over on exit paths", p.FuncPos(t.Queue), "paths leaving the loop send at most once", "a path leaving the loop can hand the held task over more than once")
-			// identity of the forwarded value
-			okID, why := true, ""
-			nSend := 0
-			sx.Instrs(t.Queue, func(in ssa.Instruction) {
-				sel, ok := in.(*ssa.Select)
-				if !ok {
-					return
-				}
-				for _, st := range sel.States {
-					if st.Dir != types.SendOnly {
-						continue
-					}
-					nSend++
-					if !receivedInLoop(t, st.Send, hdr, "buffered") {
-						okID = false
-						why = "the value sent at " + p.Pos(sel.Pos()) + " (" + sx.ValPath(st.Send) + ") is not the value received from the buffered queue in this iteration"
-					}
-				}
-			})
-			r.Check(okID && nSend > 0, "C06-R3", "queue goroutine: the value handed over is the value just received", p.FuncPos(t.Queue), fmt.Sprintf("%d send arms forward the SSA value extracted from this iteration's receive", nSend), why)
+			role := t.chanRole(a.State.Chan)
+			return role == "blocking" || role == "shared"
+		})
+		if len(R) == 0 || len(sendArms) == 0 {
+			r.Unknown("C06-R3", "queue goroutine: hand-over selects", p.FuncPos(t.Queue), "the receive from the buffered queue or the hand-over sends are not select arms in the queue goroutine's view: the hand-over rule cannot follow them")
 		}
+		w := sx.Weights{Edge: edgeWeight(sendArms), Instr: func(in ssa.Instruction) sx.Range {
+			if sd, ok := in.(*ssa.Send); ok {
+				if role := t.chanRole(sd.Chan); role == "blocking" || role == "shared" {
+					return sx.Range{Min: 1, Max: 1}
+				}
+			}
+			return sx.Range{}
+		}}
+		why := roundDiscipline(p, t.Queue, R, w, "the held task is handed over")
+		r.Check(why == "", "C06-R3", "queue goroutine: one receive and one hand-over per iteration", p.FuncPos(t.Queue), "no hand-over before the first receive, exactly one between two consecutive receives, at most one after the last", why+" (a task is dropped or duplicated)")
+		nSend := 0
+		why2 := t.usesLastReceived(t.Queue, R, func(in ssa.Instruction) []ssa.Value {
+			var out []ssa.Value
+			switch x := in.(type) {
+			case *ssa.Select:
+				for _, st := range x.States {
+					if st.Dir == types.SendOnly {
+						nSend++
+						out = append(out, st.Send)
+					}
+				}
+			case *ssa.Send:
+				nSend++
+				out = append(out, x.X)
+			}
+			return out
+		})
+		r.Check(why2 == "" && nSend > 0, "C06-R3", "queue goroutine: the value handed over is the value just received", p.FuncPos(t.Queue), "every send arm forwards, along every path, the value of the receive that opened the round", why2)
 	}
 
 	// ---- R3/R4: a lane goroutine ends only because the context is done. Any other exit (a sentinel value, an
@@ -283,7 +286,7 @@ func runC06(p *core.Prog, r *core.Report) {
 		fn   *ssa.Function
 		rule string
 		who  string
-	}{{t.Queue, "C06-R3", "queue goroutine"}, {t.Worker, "C06-R4", "worker goroutine"}} {
+	}{{t.Queue, "C06-R3", "queue goroutine"}, {t.WorkerLoop, "C06-R4", "worker goroutine"}} {
 		doneEdges, _ := t.armEdges(g.fn, func(sel *ssa.Select, a sx.Arm) bool {
 			return a.State != nil && a.State.Dir == types.RecvOnly && t.chanRole(a.State.Chan) == "done"
 		})
@@ -305,127 +308,104 @@ func runC06(p *core.Prog, r *core.Report) {
 		}
 		r.Check(okExit, g.rule, g.who+": ends only when the context is done", p.FuncPos(g.fn), "every path to a return passes a `<-ctx.Done()` arm", "the "+g.who+" can return (at "+where+") on a path that took no `<-ctx.Done()` arm — e.g. on a sentinel task value: tasks accepted afterwards are never started")
 	}
+	if t.WorkerLoop != t.Worker {
+		// the worker body drives a per-run frame (`for tl.run(i) {}`): it ends only after that frame returned, and the frame returns only on cancellation (above)
+		cut := sx.Cut{Instrs: map[ssa.Instruction]bool{}}
+		sx.Instrs(t.Worker, func(in ssa.Instruction) {
+			if c, ok := in.(*ssa.Call); ok && sameFn(sx.StaticCallee(c), t.WorkerLoop) {
+				cut.Instrs[in] = true
+			}
+		})
+		okW := len(cut.Instrs) > 0
+		for _, ret := range sx.Returns(t.Worker) {
+			if sx.ReachInstr(t.Worker, nil, ret, cut) {
+				okW = false
+			}
+		}
+		r.Check(okW, "C06-R4", "worker goroutine: ends only after its task loop ended", p.FuncPos(t.Worker), "every return follows a return of "+fnName(t.WorkerLoop), "the worker body can return without its task loop ("+fnName(t.WorkerLoop)+") having ended")
+	}
 
-	// ---- R4
+	// ---- R4 (rounds again: from one task receive to the next)
 	{
-		hdr := outerLoop(t.Worker)
-		sites := t.startSites(t.Worker)
-		if hdr == nil || len(sites) == 0 {
-			r.Fail("C06-R4", "worker goroutine loop / Start site", p.FuncPos(t.Worker), "no loop or no call reaching Task.Start found")
+		w := t.WorkerLoop // the function that holds the task loop
+		sites := t.startSites(w)
+		R := t.recvArms(w, "blocking|shared|buffered")
+		if len(sites) == 0 {
+			r.Fail("C06-R4", "worker goroutine loop / Start site", p.FuncPos(w), "no call reaching Task.Start found in the worker's view")
+		} else if len(R) == 0 {
+			r.Unknown("C06-R4", "worker goroutine: task receives", p.FuncPos(w), "the receives of tasks are not select arms in the worker's view: the per-task rule cannot follow them")
 		} else {
-			back := sx.BackEdgesTo(hdr)
-			recvArms, _ := t.armEdges(t.Worker, func(sel *ssa.Select, a sx.Arm) bool {
-				if a.State == nil || a.State.Dir != types.RecvOnly {
-					return false
-				}
-				role := t.chanRole(a.State.Chan)
-				return role == "blocking" || role == "shared" || role == "buffered"
-			})
-			if len(recvArms) == 0 {
-				r.Unknown("C06-R4", "worker goroutine: task receives", p.FuncPos(t.Worker), "the receives of tasks are not select arms of the worker body itself (moved into helpers?): the per-iteration rule cannot follow them")
-			}
-			rc := sx.Count(t.Worker, hdr, sx.Weights{Edge: edgeWeight(recvArms)}, back)
-			for i, s := range sites {
-				rg, ok := rc.Before(s.(ssa.Instruction))
-				r.Check(ok && rg.Is(1), "C06-R4", fmt.Sprintf("worker: exactly one task received on every path to Start site #%d", i), p.Pos(s.Pos()), "one receive arm on every path from the loop head", "Start is reachable in an iteration that received "+rangeStr(rg)+" tasks: a stale task from an earlier iteration (or a nil task) would be started")
-			}
 			isSite := map[ssa.Instruction]bool{}
 			for _, s := range sites {
 				isSite[s.(ssa.Instruction)] = true
 			}
-			stc := sx.Count(t.Worker, hdr, sx.Weights{Instr: func(in ssa.Instruction) sx.Range {
+			wt := sx.Weights{Instr: func(in ssa.Instruction) sx.Range {
 				if isSite[in] {
 					return sx.Range{Min: 1, Max: 1}
 				}
 				return sx.Range{}
-			}}, back)
-			okOne := len(stc.BackEdges) > 0
-			for _, rg := range stc.BackEdges {
-				if !rg.Is(1) {
-					okOne = false
+			}}
+			why := roundDiscipline(p, w, R, wt, "Start is called")
+			for i, s := range sites {
+				r.Check(why == "", "C06-R4", fmt.Sprintf("worker: exactly one task received on every path to Start site #%d", i), p.Pos(s.Pos()), "no Start before the first receive, exactly one between two consecutive receives", why+": a stale task from an earlier round (or a nil task) would be started, or a received task never is")
+			}
+			r.Check(why == "", "C06-R4", "worker: exactly one Start per iteration", p.FuncPos(w), "each received task is started once before the next is received", why)
+			// receiver identity: the task Start runs on is, along every path, the one received last
+			okID, whyID := true, ""
+			operands := func(in ssa.Instruction) []ssa.Value {
+				if !isSite[in] {
+					return nil
 				}
-			}
-			r.Check(okOne, "C06-R4", "worker: exactly one Start per iteration", p.Pos(hdr.Instrs[0].Pos()), "each trip around the loop calls Start once", "an iteration can call Start zero or several times for one received task")
-			// receiver identity: the Start calls inside the worker's view (incl. its closures), and inside a
-			// callee that stays a call (the per-task frame with the deferred recover) judged at the call's argument
-			okID, why := true, ""
-			type startAt struct {
-				recv ssa.Value
-			}
-			var starts []startAt
-			for _, f := range sx.WithClosures(t.Worker) {
-				sx.Instrs(f, func(in ssa.Instruction) {
-					if c, ok := in.(ssa.CallInstruction); ok && t.isStart(c) {
-						starts = append(starts, startAt{c.Common().Value})
-					}
-				})
-			}
-			for _, s := range sites {
-				callee := sx.StaticCallee(s)
-				if t.isStart(s) || callee == nil || callee.Parent() != nil {
-					continue // a direct Start, or a closure of the view (both collected above)
+				c := in.(ssa.CallInstruction)
+				if t.isStart(c) {
+					return []ssa.Value{c.Common().Value}
 				}
+				callee := sx.StaticCallee(c)
+				if callee == nil {
+					okID, whyID = false, "Start is reached through a dynamic call at "+p.Pos(in.Pos())
+					return nil
+				}
+				var out []ssa.Value
 				found := false
 				for _, f := range sx.WithClosures(callee) {
-					sx.Instrs(f, func(in ssa.Instruction) {
-						c, ok := in.(ssa.CallInstruction)
-						if !ok || !t.isStart(c) {
+					sx.Instrs(f, func(i2 ssa.Instruction) {
+						c2, ok := i2.(ssa.CallInstruction)
+						if !ok || !t.isStart(c2) {
 							return
 						}
 						found = true
-						prm, isP := sx.Unspill(c.Common().Value).(*ssa.Parameter)
-						if !isP || f != callee {
-							okID, why = false, "Start in "+fnName(f)+" runs on "+sx.ValPath(c.Common().Value)+", which is not the task passed in by the worker"
-							return
-						}
-						args := sx.Args(s)
-						for i, fp := range callee.Params {
-							if fp == prm && i < len(args) {
-								starts = append(starts, startAt{args[i]})
+						recv := c2.Common().Value
+						switch x := sx.Unspill(recv).(type) {
+						case *ssa.Parameter:
+							if f != callee {
+								okID, whyID = false, "Start in "+fnName(f)+" runs on a parameter of a nested function"
+								return
+							}
+							args := sx.Args(c)
+							for i, fp := range callee.Params {
+								if fp == x && i < len(args) {
+									out = append(out, args[i])
+								}
+							}
+						default:
+							// a captured variable of the worker: its cell in the worker's frame
+							if cell := cellOf(recv); cell != nil {
+								out = append(out, cell)
+							} else {
+								okID, whyID = false, "receiver of Start ("+sx.ValPath(recv)+") in "+fnName(f)+" cannot be followed to the worker's received task"
 							}
 						}
 					})
 				}
 				if !found {
-					okID, why = false, "Start is reached through "+fnName(callee)+" but not called in it directly: the task it runs on cannot be followed"
+					okID, whyID = false, "Start is reached through "+fnName(callee)+" but not called in it (or its closures) directly"
 				}
+				return out
 			}
-			if len(starts) == 0 {
-				okID, why = false, "no Start call found in the worker's view"
+			if why3 := t.usesLastReceived(w, R, operands); why3 != "" {
+				okID, whyID = false, why3
 			}
-			for _, sa := range starts {
-				recv := sa.recv
-				if receivedInLoop(t, recv, hdr, "blocking|shared") {
-					continue
-				}
-				// through a cell declared outside the loop
-				cell := cellOf(recv)
-				if cell == nil {
-					okID, why = false, "receiver of Start ("+sx.ValPath(recv)+") is not a value received in the loop"
-					continue
-				}
-				stores, complete := sx.CellStores(cell)
-				cut := sx.Cut{Instrs: map[ssa.Instruction]bool{}}
-				if !complete {
-					okID, why = false, "the task variable escapes"
-				}
-				for _, sv := range stores {
-					if !receivedInLoop(t, sv, hdr, "blocking|shared") {
-						okID, why = false, "the task variable is assigned "+sx.ValPath(sv)+", which is not a value received in this iteration"
-					}
-				}
-				sx.Instrs(t.Worker, func(i2 ssa.Instruction) {
-					if st, ok := i2.(*ssa.Store); ok && st.Addr == ssa.Value(cell) {
-						cut.Instrs[i2] = true
-					}
-				})
-				for _, s := range sites {
-					if sx.ReachInstr(t.Worker, hdr.Instrs[0], s.(ssa.Instruction), cut) && hdr.Instrs[0] != s.(ssa.Instruction) {
-						okID, why = false, "Start site at "+p.Pos(s.Pos())+" is reachable from the loop head without assigning the task variable: the task of a previous iteration would be started again"
-					}
-				}
-			}
-			r.Check(okID, "C06-R4", "worker: Start runs on the task received in this iteration", p.FuncPos(t.Worker), "receiver is (a variable always assigned from) this iteration's receive", why)
+			r.Check(okID, "C06-R4", "worker: Start runs on the task received in this iteration", p.FuncPos(w), "the receiver of Start is, along every path, the task of the receive that opened the round", whyID)
 		}
 		// who may call Start
 		wreach := reachableFrom(p, t.Worker)
